@@ -104,6 +104,7 @@ def runSession (lines : List String) : String :=
       | ["repr"] => ReprConf.replayRepr rest
       | ["guard-table"] => Small.guardTable
       | ["facade"] => Small.replayFacade rest
+      | ["gate"] => Small.replayGate rest
       | ["reserve"] => ReserveConf.replayReserve rest
       | "cache" :: hd => CacheConf.replayCache hd rest
       | ["kernel", "wait"] => Small.replayWait rest
